@@ -108,6 +108,8 @@ extern "C" void c15_creators()
   Value* vt = reinterpret_cast<Value*>(bloc_create_tabchar(usenull ? nullptr : txt, 2));
   verif_assert(vt->type() == Value::type_tabchar && vt->isNull() == usenull, "C15: bloc_create_tabchar type and nullness");
   if (!usenull) verif_assert(vt->tabchar()->size() == 2 && (*vt->tabchar())[0] == txt[0] && (*vt->tabchar())[1] == txt[1], "C15: bloc_create_tabchar content (8-bit clean)");
+  { Value* ve = reinterpret_cast<Value*>(bloc_create_tabchar(txt, 0));
+    verif_assert(ve->type() == Value::type_tabchar && !ve->isNull() && ve->tabchar()->size() == 0, "C15: bloc_create_tabchar with a non-NULL pointer and length 0 creates an empty bytes value, not a null (only a NULL pointer means null)"); }
 
   /* assigners keep the lvalue flag and replace the content */
   vs->to_lvalue(lval);
